@@ -18,6 +18,9 @@ DISPLAY_LIKE = set('XijZ')
 REST_SIGS = list(";(){}'X")
 TAIL_MARKS = ('.', 'q')  # duration-like marks written after the pitch
 UNIT_SIGS = {'yy'}     # decorations of more than one character (rests only)
+# decorations of single notes that are ONE token of several characters and CONTAIN another signifier: an elided slur ('&(' beside
+# '(' ), the inverted-mordent pair 'Ww' beside 'W'.  Written once, after the accidental (probed: both orders read back the same)
+NOTE_UNITS = [('&(', '('), ('&)', ')'), ('Ww', 'W'), ('&(', None), ('Ww', None)]
 DISPLAY_SUFFIXES = ['x', 'X', 'i', 'I', 'j', 'Z', 'y', 'yy', 'Y', 'YY']
 
 LETTERS = 'abcdefg'
@@ -98,7 +101,7 @@ class Note:
             return ''.join(pre) + dur_txt + 'r' + ''.join(post)
         slots = [[], [], [], []]  # before duration, duration..pitch, pitch..accidental, after accidental
         for s in self.sigs:
-            if s in TAIL_MARKS:
+            if s in TAIL_MARKS or len(s) > 1 or s == 'W':
                 slots[3].append(s)      # once, after the accidental (anywhere earlier it would be a duration mark)
                 continue
             n_places = 1 if rng.random() > hostile * 0.35 else 2
@@ -218,6 +221,9 @@ def rand_note(rng, *, hostile=0.5, allow_grace=True, allow_acc=True, allow_displ
             sigs = tuple(sorted(set(sigs) | {'.'}))
         if allow_grace and not grace and rng.random() < 0.03:
             sigs = tuple(sorted(set(sigs) | {'q'}))
+    if allow_sigs and chord_has_acc is None and rng.random() < 0.05:
+        unit, part = rng.choice(NOTE_UNITS)
+        sigs = tuple(sorted(set(sigs) | {unit} | ({part} if part else set())))
     return Note(dur=dur, dots=dots, grace=grace, letters=rand_letters(rng), acc=acc, sigs=sigs, fixed_pre=fixed_pre)
 
 
